@@ -194,6 +194,21 @@ def check(run: Run) -> None:
         if sorted(skips) != sorted(["entry==nullptr", "entry->schedule_context.pulled_when!=schedule.when"]) and \
                 sorted(skips) != sorted(["storage.entry_at(schedule.slot)==nullptr", "storage.entry_at(schedule.slot)->schedule_context.pulled_when!=schedule.when"]):
             run.finding("C10.h", "prepare:drain-skips", f"a due schedule may only be dropped when its entry is gone or a pulled entry is stale: {skips}", loc=MAP)
+        # the pulled marker is compared with the popped schedule BEFORE it is consumed (reset to MAX_DT)
+        stale = lambda n: n.kind == "cond" and "pulled_when!=schedule.when" in n.label.replace(" ", "")
+        consume = R.store_is(r".*schedule_context\.pulled_when", r"MAX_DT")
+        R.require_nodes(run, fl, stale, "stale-marker test")
+        R.require_nodes(run, fl, consume, "marker reset")
+        w = fl.reach(fl.states_of(consume), targets=stale, avoid=pop)
+        run.count(1, "C10.h.marker-order")
+        if w is not None:
+            run.finding("C10.h", "prepare:marker-reset-before-test", "the pulled marker is reset before it is compared with the popped schedule: every pulled "
+                        "wake-up looks stale and the due child is dropped: " + fl.path_text(w), loc=fl.cfg.describe(w[0][0]))
+        fa2 = R.fn(run, MAP, "add_map_evaluation_slot")
+        R.k1(run, "C10.h", fa2, [Role("NOCHILD", "bool", r"slot==TS_DATA_NO_CHILD_ID|TS_DATA_NO_CHILD_ID==slot"),
+                                 Role("NOENTRY", "bool", r"storage\.entry_at\(slot\)==nullptr|nullptr==storage\.entry_at\(slot\)")],
+             lambda v: Expect(calls=[]) if (v.b("NOCHILD") or v.b("NOENTRY")) else Expect(calls=[("SET", ("slot",))]),
+             role_calls={"SET": r"storage\.evaluation_candidates\.set"}, what="add_map_evaluation_slot: a slot is a candidate iff it has an entry")
         fs = R.find(fa, lambda n: isinstance(n, C.Declarator) and n.name == "full_scan")
         if not fs or cn(fs[0].init).replace(" ", "") != "storage.refresh_all_bindings||!was_primed":
             run.finding("C10.h", "prepare:full-scan-init", f"full_scan must start as refresh_all_bindings || !was_primed: {cn(fs[0].init) if fs else None}", loc=MAP)
@@ -236,6 +251,8 @@ def check(run: Run) -> None:
 
 
 VARIANTS = [
+    {"id": "h-marker-reset-before-test", "expect": "C10.h", "edits": [{"file": MAP, "find": "                if (schedule.pulled)\n                {\n                    if (entry->schedule_context.pulled_when != schedule.when)\n                    {\n                        continue;\n                    }\n                    entry->schedule_context.pulled_when = MAX_DT;\n                }", "replace": "                if (schedule.pulled)\n                {\n                    entry->schedule_context.pulled_when = MAX_DT;\n                    if (entry->schedule_context.pulled_when != schedule.when)\n                    {\n                        continue;\n                    }\n                }"}]},
+    {"id": "h-candidate-bounded-by-entry-count", "expect": "C10.h", "edits": [{"file": MAP, "find": "            if (slot == TS_DATA_NO_CHILD_ID || storage.entry_at(slot) == nullptr) { return; }\n            storage.evaluation_candidates.set(slot);", "replace": "            if (slot == TS_DATA_NO_CHILD_ID || slot >= storage.entries.entry_count() || storage.entry_at(slot) == nullptr) { return; }\n            storage.evaluation_candidates.set(slot);"}]},
     {"id": "a-erase-before-stop", "expect": "C10.a", "edits": [{"file": MAP, "find": "            if (entry->graph.has_value() && entry->graph.view().started()) {\n                entry->graph.view().stop(evaluation_time);\n            }\n            entry->schedule_context.pulled_when = MAX_DT;\n            if (output_mutation != nullptr)", "replace": "            entry->schedule_context.pulled_when = MAX_DT;\n            if (output_mutation != nullptr)"}, {"file": MAP, "find": "                (void)error_mutation->erase(entry->key.view());\n            }\n        }", "replace": "                (void)error_mutation->erase(entry->key.view());\n            }\n            if (entry->graph.has_value() && entry->graph.view().started()) {\n                entry->graph.view().stop(evaluation_time);\n            }\n        }"}]},
     {"id": "a-release-before-start", "expect": "C10.a", "edits": [{"file": MAP, "find": "                                                     spec.output_binding_mode);\n            entry.graph.view().start(evaluation_time);", "replace": "                                                     spec.output_binding_mode);\n            rollback.release();\n            entry.graph.view().start(evaluation_time);"}, {"file": MAP, "find": "                entry.graph.view(), evaluation_time, spec.child.input_bindings);\n            rollback.release();", "replace": "                entry.graph.view(), evaluation_time, spec.child.input_bindings);"}]},
     {"id": "a-on-erase-wrong-slot", "expect": "C10.a", "edits": [{"file": MAP, "find": "void on_erase(std::size_t slot) override { entries.destroy_at(slot); }", "replace": "void on_erase(std::size_t slot) override { if (slot != 0) { entries.destroy_at(slot - 1); } }"}]},
